@@ -37,4 +37,17 @@ BaseIsPrefix == \A b \in {<<>>, <<"x">>, <<"x", "y">>} :
                   LET full == Argv(b, {<<"m1", <<"p">>>>}, requested, <<"z">>, FALSE)
                       nb   == Argv(b, {<<"m1", <<"p">>>>}, requested, <<"z">>, TRUE)
                   IN full = b \o nb
+\* law (checked once, constant level): over a small universe of definitions and directory files, what `target show
+\* --commands` displays for a listed name is what `run` executes for it, except under the Shadowed deviation - where
+\* the two differ
+SNames == {"build", "test"}
+SDefPaths == {<<>>, <<"x", "run">>, <<"d", "build.sh">>}
+SFiles == { [path |-> <<"d", "build.sh">>, stem |-> "build"], [path |-> <<"d", "build.py">>, stem |-> "build"],
+            [path |-> <<"d", "test.sh">>, stem |-> "test"] }
+SDefs == { D \in SUBSET [name : SNames, path : SDefPaths] : \A a, b \in D : a.name = b.name => a = b }
+SAllPaths == SDefPaths \cup { f.path : f \in SFiles }
+ASSUME ShowAgreesUnlessShadowed ==
+  \A D \in SDefs : \A C \in SUBSET SFiles : \A n \in ShownNames(D, C) : \A p \in SAllPaths :
+     ShownPathOK(D, C, n, p) =>
+        IF Shadowed(D, C, n) THEN ~RunExeOK(D, C, n, p) ELSE RunExeOK(D, C, n, p)
 =============================================================================
